@@ -127,7 +127,10 @@ def abstract_inputs(tier: str, big: bool = False):
     # DTLS
     add("dtls", True, "plain", [(HD + B, False)], B, "plain")
     add("dtls", True, "trailing_record", [(HD + B, False), (1, True)], B, "trail", nrec=1)
-    add("dtls", True, "dtls10_record_version", [(HD + B, True)], B, "recver")
+    # record version {254,255} (DTLS 1.0) on the first ClientHello record is what OpenSSL sends; accepted since the
+    # fix of starts_like_dtls_record (/repo 5e6fed0e6).  {254,252} is no record version.
+    add("dtls", True, "dtls10_record_version", [(HD + B, False)], B, "recver", ver=[0xFE, 0xFF])
+    add("dtls", False, "unknown_record_version", [(HD + B, True)], B, "recver", ver=[0xFE, 0xFC])
     for k in (2, 3):
         for comp in compositions(B, k):
             add("dtls", True, "dtls_fragments", [(HD + f, False) for f in comp], comp[0], "frag", frags=list(comp))
@@ -196,8 +199,8 @@ def concretise(inp, spec, fine):
             ctype, ver = 0x16, None
             if kind == "badhdr" and bad:
                 ctype = 0x17
-            if kind == "recver" and bad:
-                ver = (0xFE, 0xFF)
+            if kind == "recver":
+                ver = tuple(args["ver"])
             wire_units += rec_units(munits[pos: pos + n], ctype=ctype, ver=ver, seq=seq)
             pos += n
         seq += 1
